@@ -80,6 +80,7 @@ class B(object):
         self.expected = None
         self.why = None
         self.skip = None
+        self.nth_in_statement = 0         # n-th alias of one import statement that binds this same top-level name
         self.shares_read_dotted_package = False   # another import of a package read through a dotted import
         self.strict = False               # position taken from the tokenizer and demanded exactly (multi-line import)
         self.cond = False                 # sits inside a compound statement of its scope
@@ -373,6 +374,7 @@ class Oracle(object):
                 deltarget(t)
         elif T is ast.Import:
             hi = getattr(node, 'end_lineno', node.lineno) or node.lineno
+            seen_tops = {}
             for a in node.names:
                 if a.asname:
                     kind, id = 'import-as', a.asname
@@ -381,6 +383,8 @@ class Oracle(object):
                 else:
                     kind, id = 'import', a.name
                 b = self.add(id, kind, sc, self.alias_pos(a), node.lineno, hi, unv, comp, module=a.name)
+                if kind != 'import-as':
+                    b.nth_in_statement = seen_tops[id] = seen_tops.get(id, 0) + 1
                 self.multiline_alias(node, a, b)
         elif T is ast.ImportFrom:
             hi = getattr(node, 'end_lineno', node.lineno) or node.lineno
@@ -583,6 +587,8 @@ def missing_label(b):
     if b.rebound:
         return 'missing:outer-binding-rebound-in-nested-%s-that-reads-locals' % (
             'class-body' if b.rebound[0] == 'class' else b.rebound[0])
+    if b.nth_in_statement > 1:
+        return 'missing:repeated-package-in-one-import-statement:' + b.kind
     if b.shares_read_dotted_package:
         return 'missing:import-of-package-read-through-dotted-import:' + b.kind
     if b.kind == 'param-posonly':
@@ -625,6 +631,11 @@ def marginals(part, b, orc=None):
     part.hist('expected_by_kind', '%s->%s' % (binding_kind_for_hist(b), b.expected or 'silent'))
     if b.nested_locals:
         part.count('bindings_checked_although_a_nested_scope_reads_locals')
+    if b.nth_in_statement > 1:
+        part.hist('repeated_package_in_one_import_statement', '%s #%d in %s -> %s' % (
+            b.kind, min(b.nth_in_statement, 4), b.site.kind, b.expected or 'silent'))
+        if b.expected:
+            part.count('reportable_repeated_package_aliases_in_one_import_statement')
     if b.shares_read_dotted_package:
         part.hist('imports_of_a_package_read_through_a_dotted_import', '%s in %s (module %s) -> %s' % (
             b.kind, b.site.kind, 'package' if '.' not in b.module else 'sub-package', b.expected or 'silent'))
@@ -973,7 +984,8 @@ def main(run):
                  'bindings_skipped:scope-reads-locals', 'bindings_checked_although_a_nested_scope_reads_locals',
                  'reportable_bindings_inside_augmented_assignments', 'host_positions_covered',
                  'unread_W02_imports_of_a_package_read_through_a_dotted_import',
-                 'multiline_import_positions_confirmed_against_tokenizer'),
+                 'multiline_import_positions_confirmed_against_tokenizer',
+                 'reportable_repeated_package_aliases_in_one_import_statement'),
         assumptions=[
             'never read = no ast.Name(id, Load) anywhere in the file (strings, __all__, attribute names do not count)',
             'a comprehension variable is owned by the function/lambda/class/module that contains the comprehension '
